@@ -97,7 +97,7 @@ def _(self, start, end):
 # ---------------------------------------------------------------- structural invariant (I1-I5), conjunct by conjunct
 @macro
 def Shape(s):
-    return (len(s._blocks) >= 1
+    return (s._blocks != None and len(s._blocks) >= 1
         and forall(lambda i: implies(0 <= i and i < len(s._blocks), s._blocks[i] != None and s._blocks[i].store is s and s._blocks[i].tokens != None), s._blocks[i])
         and forall(lambda i, j: implies(0 <= i and i < j and j < len(s._blocks), s._blocks[i] != s._blocks[j] and s._blocks[i].tokens != s._blocks[j].tokens), (s._blocks[i], s._blocks[j])))
 
